@@ -31,7 +31,7 @@ TB_ASSUME = ["the hand engine is a parameter of the TB model: each settlement ca
              "randomness (random seats, first big-blind seat) enters as recorded choices checked for legality"]
 
 def tb_prop(classes, extra_tb=None):
-    return {"layers": ["tb"], "classes": classes, "modes": tb_modes(), "rule": TB_RULE,
+    return {"layers": ["tb"], "classes": classes + ["CRASH."], "modes": tb_modes(), "rule": TB_RULE,
             "trusted_base": TB_COMMON + (extra_tb or []), "assumptions": TB_ASSUME, "extra_obligations": []}
 
 PROPS = {
@@ -60,7 +60,7 @@ PROPS = {
         "extra_obligations": [],
     },
     **{pid: {
-        "layers": ["hd"], "classes": [pid + ".", "CONTRACT."],
+        "layers": ["hd"], "classes": [pid + ".", "CONTRACT.", "CRASH."],
         "modes": {"quick": [{"mode": "hand", "args": ["-n", 64, "-hands", 3], "timeout": 900}],
                   "thorough": [{"mode": "hand", "args": ["-n", 2500, "-hands", 4, "-workers", 16], "timeout": 3000}],
                   "search": [{"mode": "hand", "args": ["-n", 600, "-hands", 3, "-workers", 16], "timeout": 1500}]},
@@ -75,6 +75,7 @@ PROPS = {
                         "the harness submits only at quiescent points (the last state the backend returned has reached the table)"],
         "extra_obligations": [],
     } for pid in ["C10", "C11", "C13", "C14", "C15"]},
+
     **{pid: {
         "layers": ["ac"], "classes": [pid + ".", "CONTRACT."],
         "modes": {"quick": [{"mode": "actor", "args": ["-n", 16, "-hands", 3, "-playercases", 1500, "-playertimed", 24, "-observercases", 1500], "timeout": 900}],
@@ -122,9 +123,28 @@ PROPS = {
         "extra_obligations": [],
     },
     "C17": {
-        "layers": ["mg"], "classes": ["C17."],
-        "modes": {"quick": [], "thorough": [], "search": []},
-        "rule": "proof-only so far: the forwarding discipline is decided over the regenerated manager table; the twin-table differential is not built yet",
-        "trusted_base": TB_COMMON, "assumptions": ["the extractor recognises the manager's method bodies (fails closed on any other shape)"], "extra_obligations": [],
+        "layers": ["mg", "tb", "hd"], "classes": ["C17."],
+        "modes": {"quick": [{"mode": "mgr", "args": ["-ntable", 40, "-nhand", 16], "timeout": 900}],
+                  "thorough": [{"mode": "mgr", "args": ["-ntable", 1200, "-nhand", 400, "-hands", 8, "-workers", 14], "timeout": 3000}],
+                  "search": [{"mode": "mgr", "args": ["-ntable", 300, "-nhand", 100, "-workers", 14], "timeout": 1500}]},
+        "rule": ("the table-level histories (synthetic hand backend) and the hand-level histories (real pokerface) of the other checks, but with every one of the 22 forwarding "
+                 "methods called through ONE shared pokertable.Manager in which all tables of all workers are registered at the same time (engines built by the harness are "
+                 "registered through the verif hook VerifManagerStore; a twin table is created by the manager's own CreateTable); every call is bracketed by byte snapshots of the "
+                 "idle twin table (must not change), one call in nine is preceded by a call of a random method on an id that was never registered, half of the table histories end "
+                 "with CloseTable / ReleaseTable through the manager followed by more calls, the run ends with closing the twin and Reset; per-table traces are replayed through the "
+                 "TB / HD models (a manager that forwards to another method or table, permutes arguments or drops a result is a mismatch there), the call log through the MG registry "
+                 "model (table-not-found exactly for unknown / closed / released ids); non-trivial = a history with at least one forwarded call; distinct = distinct trace texts"),
+        "trusted_base": TB_COMMON + ["the verif hook VerifManagerStore stores an engine in the manager's map exactly as CreateTable does (4 lines, build tag verif)"],
+        "assumptions": ["the extractor recognises the manager's method bodies (fails closed on any other shape)",
+                        "the engines are the TB / HD models' engines: what an engine answers is decided by those layers' replays in the same run"],
+        "extra_obligations": [],
     },
 }
+
+# C11 also waits out real response time-outs (17 s each, all at once): one asked player stays silent at a ready / ante /
+# blind request of a ring hand, everybody else answers, the hand must move on by itself
+PROPS["C11"] = {**PROPS["C11"], "modes": {
+    "quick": [{"mode": "hand", "args": ["-n", 64, "-hands", 3, "-withhold", 8], "timeout": 900}],
+    "thorough": [{"mode": "hand", "args": ["-n", 2500, "-hands", 4, "-workers", 16, "-withhold", 48], "timeout": 3000}],
+    "search": [{"mode": "hand", "args": ["-n", 600, "-hands", 3, "-workers", 16, "-withhold", 16], "timeout": 1500}]},
+    "rule": PROPS["C11"]["rule"] + "; plus withheld-response histories: at the first ready / ante / blind request of a hand one asked player (at blind requests half of the time the highest game index asked) stays silent, the others answer, and the 17 s response time-out is waited out: the hand must move on by itself, not earlier than the time-out"}
